@@ -227,8 +227,8 @@ def contained(seq, container, id="r"):
     n = len(seq)
     if container == "mutable":
         return CircularRecord(MutableSeq(seq), id=id, name=id)
-    if container == "annotated":
-        return CircularRecord(Seq(seq), id=id, name=id, features=decorations(n), letter_annotations={"idx": list(range(n)), "txt": "x" * n},
+    if container in ("annotated", "annotated-light"):
+        return CircularRecord(Seq(seq), id=id, name=id, features=decorations(n, light=container.endswith("light")), letter_annotations={"idx": list(range(n)), "txt": "x" * n},
                               annotations={"topology": "circular", "molecule_type": "DNA", "keywords": ["k"]}, dbxrefs=["db:1"])
     if container == "seq":
         return crec(seq, id)
@@ -254,14 +254,14 @@ def produced(seq, route, id="r"):
         return contained(seq, "annotated", id)
     if route == "rotated-back":
         a = max(1, n // 3)
-        return contained(rm.rot_right(seq, a), "annotated", id) >> (n - a)
+        return contained(rm.rot_right(seq, a), "annotated-light", id) >> (n - a)
     if route == "rc-twice":
-        r = contained(seq, "annotated", id)
+        r = contained(seq, "annotated-light", id)
         return r.reverse_complement(id=True, name=True, description=True, annotations=True, dbxrefs=True).reverse_complement(
             id=True, name=True, description=True, annotations=True, dbxrefs=True)
     if route == "rotated-rc-rotated":
         a = max(1, n // 4)
-        r = (contained(rm.rot_right(rm.revcomp(seq), a), "annotated", id) >> (n - a)).reverse_complement(id=True, name=True, annotations=True)
+        r = (contained(rm.rot_right(rm.revcomp(seq), a), "annotated-light", id) >> (n - a)).reverse_complement(id=True, name=True, annotations=True)
         return r >> 2 << 2
     if route in ("reassigned-after-rotation", "reassigned-after-rc", "source-edited-later"):
         # records whose history disagrees with their present content: the sequence was assigned after the record came out of a
@@ -270,14 +270,14 @@ def produced(seq, route, id="r"):
         junk = seq[::-1] if seq[::-1] != seq else seq[1:] + seq[:1]
         a = max(1, n // 3)
         if route == "reassigned-after-rotation":
-            r = contained(junk, "annotated", id) >> a
+            r = contained(junk, "annotated-light", id) >> a
             r.seq = Seq(rm.rot_right(seq, a))
             return r
         if route == "reassigned-after-rc":
-            r = contained(junk, "annotated", id).reverse_complement(id=True, name=True, annotations=True)
+            r = contained(junk, "annotated-light", id).reverse_complement(id=True, name=True, annotations=True)
             r.seq = Seq(seq)
             return r
-        src = contained(seq, "annotated", id)
+        src = contained(seq, "annotated-light", id)
         r = src >> a
         src.seq = Seq(junk)
         src.features.append(mk_feature([(0, 2, 1)], fid="later1"))
@@ -543,13 +543,13 @@ def mk_feature(parts, type="misc_feature", fid="f", qualifiers=None):
     return SeqFeature(loc, type=type, id=fid, qualifiers=q)
 
 
-def decorations(n):
+def decorations(n, light=False):
     """Features of every unusual but legal shape, spread around a record of length n (used to check that what a record is
-    annotated with does not change what an assembly does with it)."""
+    annotated with does not change what an assembly does with it).  `light`: two spots instead of seven."""
     feats = []
     if n < 12:
         return feats
-    spots = sorted(set([0, n // 5, (2 * n) // 5, n // 2, (3 * n) // 5, (4 * n) // 5, n - 6]))
+    spots = sorted(set([0, n // 5, (2 * n) // 5, n // 2, (3 * n) // 5, (4 * n) // 5, n - 6])) if not light else sorted({n // 5, n - 6})
     types = ["misc_feature", "fuzzy_region", "within_region", "between_region", "oneof_region", "ordered_region", "CDS"]
     i = 0
     for a in spots:
